@@ -38,6 +38,9 @@ pub struct EncParams {
     pub end_magic: bool,
     /// UCSC layout: a u32 record count in front of each zoom level's data
     pub zoom_count_prefix: bool,
+    /// version >= 2 only: leave the total summary out (totalSummaryOffset = 0)
+    #[serde(default)]
+    pub no_summary: bool,
 }
 
 #[derive(Serialize, Deserialize, Clone, Debug, PartialEq)]
@@ -469,7 +472,7 @@ fn finish(
         w.u8(0);
     }
     // summary
-    let summary = if p.version >= 2 {
+    let summary = if p.version >= 2 && !p.no_summary {
         let at = w.pos();
         w.put_u64_at(44, at);
         w.u64(stats.0);
